@@ -939,6 +939,13 @@ func pairsCase(c *ev.Case) {
 func bulkCase(c *ev.Case, controlled bool) {
 	rng := c.Rng
 	K := rng.Pick(130, 200, 300, 513)
+	if c.Index%4 == 3 { // beyond plausible size thresholds of a "big map" path (1024, 2048, 4096)
+		K = []int{1100, 2100, 1030, 4200}[(c.Index/4)%4]
+		if K == 4200 && !c.Thorough() {
+			K = 2060
+		}
+		c.Add("bulk_cases_above_1024_entries", 1)
+	}
 	kv := mapz.NewSafeKV[int64, int64](0)
 	cur := map[int64]int64{}
 	for k := 0; k < K; k++ {
@@ -1063,7 +1070,7 @@ func bulkCase(c *ev.Case, controlled bool) {
 	}
 	c.Logf("bulk: %s observers=%d", desc, nobs)
 	if controlled {
-		sc := sched.Config{Seed: rng.Uint64(), MaxSteps: 200000, Strategy: sched.RandomWalk}
+		sc := sched.Config{Seed: rng.Uint64(), MaxSteps: 200000 + 100*K, Strategy: sched.RandomWalk}
 		if rng.Bool() {
 			sc.Strategy = sched.PCT
 			sc.Depth = rng.Range(1, 4)
@@ -1169,6 +1176,7 @@ func main() {
 	r.Require("rounds_setx", 100)
 	r.Require("rounds_setx_delete", 100)
 	r.Require("bulk_snapshots_checked", 10000)
+	r.Require("bulk_cases_above_1024_entries", 1500)
 	for _, k := range []string{"Keys+Values", "Range", "All", "GetWithMap", "Len"} {
 		r.Require("bulk_snapshots/"+k, 1000)
 	}
